@@ -169,16 +169,21 @@ FxRules(cfg) ==
     [] cfg = "wsrc"    -> [WHITESPACE |-> Rule("_", SeqE(<<Ref("v"), Str(<<gt>>)>>)), v |-> Rule("!", Str(<<sp>>))]
     \* WHITESPACE that reaches a non-atomic rule: implicit trivia runs INSIDE the implicit rule (nested parse_trivia)
     [] cfg = "wsna"    -> [WHITESPACE |-> Rule("_", AltE(<<Str(<<sp>>), SeqE(<<Ref("dn"), Str(<<gt>>)>>)>>)), dn |-> Rule("!", SeqE(<<Str(<<lt>>), Str(<<lt>>)>>))]
+    \* a negative predicate that can fail inside the implicit rule ("<" not followed by "<"): its failure is suppressed like any other
+    [] cfg = "cmnot"   -> [COMMENT |-> Rule("_", SeqE(<<Str(<<lt>>), NotP(Str(<<lt>>))>>))]
     [] cfg = "wspush"  -> [WHITESPACE |-> Rule("_", SeqE(<<Str(<<sp>>), PushLit(<<a>>)>>))]
     [] cfg = "wspushm" -> [WHITESPACE |-> Rule("_", PushE(Str(<<sp>>)))]
+    \* trivia that pushes and can still fail: the attempt is abandoned, its push must be undone
+    [] cfg = "cmpushf" -> [WHITESPACE |-> Rule("_", Str(<<sp>>)), COMMENT |-> Rule("_", SeqE(<<PushE(Str(<<lt>>)), Str(<<gt>>)>>))]
+    [] cfg = "wspushf" -> [WHITESPACE |-> Rule("_", SeqE(<<PushE(Str(<<sp>>)), Opt(Str(<<lt>>)), NotP(Str(<<gt>>))>>))]
     [] cfg = "cmpop"   -> [WHITESPACE |-> Rule("_", Str(<<sp>>)), COMMENT |-> Rule("_", SeqE(<<Str(<<lt>>), DropT>>))]
 FxG(body, cfg) == Merge([r |-> Rule("", body), s |-> Rule("", SeqE(<<Str(<<a>>), Ref("u")>>)),
                          u |-> Rule("", SeqE(<<Str(<<a>>), Opt(Str(<<a>>))>>))], FxRules(cfg))
 FxProbes == {SeqE(<<PeekAllT, Eoi>>), SeqE(<<DropT, DropT>>), PopT, SeqE(<<DropT, Eoi>>), NotP(DropT), SeqE(<<PeekT, PeekT>>)}
 FxStackBodies(lz) == {SeqE(<<x, pr>>) : x \in TrT2(0), pr \in FxProbes}
                      \cup {SeqE(<<PushLit(<<a>>), x, pr>>) : x \in TrT1 \cup Un(TrAtoms), pr \in FxProbes}
-FamTrivFx(lz) == {FxG(x, cfg) : x \in TrT2(0), cfg \in {"cmr", "wsr", "cmrc", "wsrc", "wsna"}}
-                 \cup {FxG(x, cfg) : x \in FxStackBodies(0), cfg \in {"wspush", "wspushm", "cmpop"}}
+FamTrivFx(lz) == {FxG(x, cfg) : x \in TrT2(0), cfg \in {"cmr", "wsr", "cmrc", "wsrc", "wsna", "cmnot"}}
+                 \cup {FxG(x, cfg) : x \in FxStackBodies(0), cfg \in {"wspush", "wspushm", "cmpop", "cmpushf", "wspushf"}}
 
 \* ---- family "ci": case-insensitive literals fold ASCII letters only (C03, C12, C02) -----------------
 \*   inputs over { k, K, KELVIN SIGN, s, LONG S, x }: ^"k" matches k and K and nothing else
@@ -217,6 +222,14 @@ SqWsBodies(x, y) == UNION {{SeqE(<<Str(<<a>>), ch, Str(<<a>>)>>), SeqE(<<Plus(St
                             : ch \in {AltE(<<x, y>>), AltE(<<y, x>>), AltE(<<x, y, Str(<<a>>)>>)}}
 FamSqWs(lz) == UNION {{[r |-> Rule(m, bd), WHITESPACE |-> Rule("_", AltE(<<wp[1], wp[2]>>))] : m \in {"", "@", "$"}, bd \in SqWsBodies(wp[1], wp[2])} : wp \in WsPairs}
 
+\* ---- family "sqcls": a choice whose FIRST alternative is already a fused choice when the choice around it is squashed (a built-in
+\*      that is a choice of ranges, or a parenthesised choice), followed by literals inside and outside its range
+ClsFirst == {Cls("ASCII_ALPHA"), Cls("ASCII_HEX_DIGIT"), Cls("ASCII_ALPHANUMERIC"), AltE(<<Str(<<a>>), Rng(one, one)>>)}
+ClsRest == {Str(<<sp>>), Str(<<a>>), Str(<<A, a>>), IStr(<<a>>), Rng(sp, one), Str(<<one>>)}
+ClsChoices(lz) == {AltE(<<x, y>>) : x \in ClsFirst, y \in ClsRest} \cup {AltE(<<x, y, z>>) : x \in ClsFirst, y \in ClsRest, z \in ClsRest}
+                  \cup {AltE(<<y, x, z>>) : x \in ClsFirst, y \in {Str(<<sp>>), Str(<<A, a>>)}, z \in ClsRest}
+FamSqCls(lz) == {[r |-> Rule(m, bd)] : m \in {"", "@"}, bd \in UNION {{ch, Plus(ch), SeqE(<<ch, Eoi>>)} : ch \in ClsChoices(0)}}
+
 \* ---- family "tags": C01 (tags are compared between interpreter and generated code) ----
 \*   r = { BODY }   s = { "a" ~ "b"? }   v = _{ #t3 = s }     + silent WHITESPACE
 TagAtoms == {Tag("t1", Ref("s")), Tag("t2", SeqE(<<Ref("s"), Str(<<b>>)>>)), Tag("t1", AltE(<<Ref("t"), Ref("s")>>)),
@@ -233,7 +246,8 @@ FamTags(lz) == {TagG(x, ws) : x \in TagT2(0) \cup TagT3(0), ws \in BOOLEAN}
 \*   r = m{ BODY }   q = qm{ "b" | "ab" }   s = { "a" ~ "b"? }    + trivia per config
 \* squash_choice: choices of literals / insensitive literals / ranges / classes, every order, shared prefixes
 SqAtoms  == {Str(<<a>>), Str(<<b>>), Str(<<a, b>>), Str(<<b, a>>), IStr(<<a>>), IStr(<<a, b>>), IStr(<<a, b, a>>), Str(<<a, b, a>>), Rng(a, b),
-             Cls("ASCII_ALPHA_UPPER"), Ref("q"), Str(<<>>), IStr(<<>>)}
+             Cls("ASCII_ALPHA_UPPER"), Ref("q"), Str(<<>>), IStr(<<>>),
+             Cls("ASCII_ALPHA"), Str(<<sp>>)}      \* (" ": a literal outside every class) a built-in that is itself a choice of ranges: inlined and squashed BEFORE the choice around it is
 SqAtomsS == {Str(<<a>>), Str(<<a, b>>), IStr(<<b>>), Rng(a, a), IStr(<<a, b, a>>), Str(<<>>)}
 SqChoices(lz) == {AltE(<<x, y>>) : x \in SqAtoms, y \in SqAtoms} \cup {AltE(<<x, y, z>>) : x \in SqAtomsS, y \in SqAtomsS, z \in SqAtomsS}
              \cup {AltE(<<x, AltE(<<y, z>>)>>) : x \in SqAtomsS, y \in SqAtomsS, z \in {Str(<<b>>), Ref("q")}}
@@ -242,7 +256,9 @@ SqBodies(lz) == UNION {{ch, SeqE(<<ch, Str(<<b>>)>>), SeqE(<<ch, Eoi>>)} \cup (I
 \* skip: (!(x | y) ~ ANY)* and near misses
 SkTargets == {Str(<<b>>), AltE(<<Str(<<b>>), Str(<<a, b>>)>>), Ref("q"), AltE(<<Ref("q"), Str(<<sp>>)>>), AltE(<<Str(<<b>>), Rng(a, a)>>),
               Ref("k"), Ref("z"), AltE(<<Ref("k"), Str(<<A>>)>>),
-              SeqE(<<Str(<<a>>), Str(<<b>>)>>), AltE(<<Str(<<b>>), AltE(<<Str(<<a, a>>), Str(<<sp>>)>>)>>)}
+              SeqE(<<Str(<<a>>), Str(<<b>>)>>), AltE(<<Str(<<b>>), AltE(<<Str(<<a, a>>), Str(<<sp>>)>>)>>),
+              \* case-insensitive terminators (a pass that reads terminators back from a squashed choice must keep their case flag)
+              IStr(<<a>>), AltE(<<IStr(<<a, b>>), Str(<<sp>>)>>), AltE(<<Str(<<b>>), IStr(<<a>>)>>)}
 SkForms(x) == {Star(SeqE(<<NotP(x), AnyC>>)), Star(SeqE(<<NotP(x), AnyC, Opt(Str(<<a>>))>>)), Plus(SeqE(<<NotP(x), AnyC>>)),
                Star(SeqE(<<NotP(x), Rng(a, b)>>))}
 SkBodies(lz) == UNION {{f, SeqE(<<f, Opt(Str(<<b>>))>>), SeqE(<<Str(<<a>>), f, Eoi>>), SeqE(<<f, Ref("s")>>)} : f \in UNION {SkForms(x) : x \in SkTargets}}
@@ -331,6 +347,7 @@ Grammars ==
     [] Family = "bounds"  -> FamBounds(0)
     [] Family = "sqesc"   -> FamSqEsc(0)
     [] Family = "sqws"    -> FamSqWs(0)
+    [] Family = "sqcls"   -> FamSqCls(0)
 
 Alpha ==
   CASE Family \in {"core2", "core3", "core2nosoi", "core3nosoi"} -> CoreAlpha
@@ -346,6 +363,7 @@ Alpha ==
     [] Family = "bounds" -> {a, sp, lt, gt}
     [] Family = "sqesc" -> {nl, tab, bsl, nn, tt, a}
     [] Family = "sqws" -> {a, sp, tab, nl}
+    [] Family = "sqcls" -> {a, sp, A, one}
     [] Family = "ci" -> CiAlpha
 
 Inputs == Strings(Alpha, MaxLen)
